@@ -155,8 +155,14 @@ func runStandard(t *testing.T, p *Prop, sc *world.Scenario, out *Outcome) {
 	if p.Check != nil {
 		p.Check(c)
 	}
-	for range w.Panics {
+	for _, pm := range w.Panics {
+		// a request whose handler panics: nothing recovers it in the real node (the process ends)
 		out.probe("panic-on-request-goroutine")
+		kind := pm
+		if i := strings.Index(pm, " "); i > 0 {
+			kind = pm[:i]
+		}
+		out.violate(p.ID, "request-panicked", "request-panicked op="+kind, "a request panicked inside the node (nothing recovers a handler's panic: the process ends): %s", pm[:min(len(pm), 300)])
 	}
 	reportLockLeaks(p.ID, w, out)
 	out.Steps = w.S.StepNo()
